@@ -272,7 +272,7 @@ func c09Judge(c *core.Ctx, k c09case, res *core.ShardResult) (vs []core.Violatio
 }
 
 func c09Run(c *core.Ctx) bool {
-	n := c.Q(600, 10000)
+	n := c.Q(1200, 12000)
 	results := make([]*core.ShardResult, n)
 	core.ParallelFor(n, c.NCPU, func(i int) {
 		results[i] = core.NewShardResult()
